@@ -92,6 +92,10 @@ class SimNet(object):
             error = IOError
 
             @staticmethod
+            def gethostbyname(name):           # dotted quads only: nothing is ever resolved
+                return name
+
+            @staticmethod
             def socket(*a):
                 s = FakeSocket(net)
                 net.sockets.append(s)
